@@ -28,6 +28,14 @@ func SelfTest(prop, repo, verif string) map[string]interface{} {
 			files = append(files, filepath.Join(dir, e.Name()))
 		}
 	}
+	// patches that apply to every property (large behaviour-preserving refactorings)
+	if ents2, err := os.ReadDir(filepath.Join(verif, "mutants", "_all")); err == nil {
+		for _, e := range ents2 {
+			if strings.HasSuffix(e.Name(), ".patch") {
+				files = append(files, filepath.Join(verif, "mutants", "_all", e.Name()))
+			}
+		}
+	}
 	sort.Strings(files)
 	type res struct {
 		Name    string   `json:"name"`
